@@ -596,22 +596,22 @@ pub fn run<S: Src, const FAM: u8, const MUT: bool, const INIT: bool, const ANN: 
     let sel_x = t.selected_l::<FAM>(x);
 
     if INIT {
-        check!(s, t.stack_inv::<FAM, ANN, K1>(&post, plen), "C05,C06,C07,C08,C18:constructor establishes the stack invariant (kinds, order, closure, LPM seeds)");
+        check!(s, t.stack_inv::<FAM, ANN, K1>(&post, plen), "C05,C06,C07,C08,C13,C18:constructor establishes the stack invariant (kinds, order, closure, LPM seeds)");
         match FAM {
             UNION => {
-                check!(s, post_l == t.ent_l(x) && post_r == t.ent_r(y), "C05:initially every entry of both views remains to be visited");
+                check!(s, post_l == t.ent_l(x) && post_r == t.ent_r(y), "C05,C13:initially every entry of both views remains to be visited");
             }
             INTER => {
                 if sel_x {
-                    check!(s, post_l, "C06:initially every common entry remains to be visited (left)");
+                    check!(s, post_l, "C06,C13:initially every common entry remains to be visited (left)");
                 }
                 if t.ent_r(y) && t.stored_l(&t.b[y].0) {
-                    check!(s, post_r, "C06:initially every common entry remains to be visited (right)");
+                    check!(s, post_r, "C06,C13:initially every common entry remains to be visited (right)");
                 }
             }
             _ => {
                 if sel_x {
-                    check!(s, post_l, "C07:initially every selected left entry remains to be visited");
+                    check!(s, post_l, "C07,C13:initially every selected left entry remains to be visited");
                 }
             }
         }
